@@ -343,9 +343,17 @@ def do_action(api, env, context, act, orders, rec):
     elif op == 'subscribe':
         api.subscribe(act['ids'])
     elif op == 'unsubscribe':
-        api.unsubscribe(act['ids'])
+        left = set(env.get_universe()) - set(act['ids'])
+        if not left and 'stock' not in [str(k).lower() for k in env.config.base.accounts]:
+            # a futures-only run with an empty universe is aborted by design ("Current universe is empty"): not a scenario
+            res = 'skipped: would empty the universe of a futures-only run'
+        else:
+            api.unsubscribe(act['ids'])
     elif op == 'update_universe':
-        api.update_universe(act['ids'])
+        if not act['ids'] and 'stock' not in [str(k).lower() for k in env.config.base.accounts]:
+            res = 'skipped: would empty the universe of a futures-only run'
+        else:
+            api.update_universe(act['ids'])
     elif op == 'raise':
         raise RuntimeError('scripted user error')
     elif op == 'raise_api':
